@@ -11,14 +11,15 @@ import (
 
 func zzC06FS() *zzFS {
 	return newZZFS(map[string]string{
-		"card.vuego":  `<div class="card"><header><slot name="h">FB-H</slot></header><main><slot>FB-D</slot></main><footer><slot name="f" :x="n" :y="m">FB-F</slot></footer></div>`,
-		"list.vuego":  `<ul><li v-for="it in items"><slot :item="it" :pos="it">FB-{{ it }}</slot></li></ul>`,
-		"panel.vuego": `<div class="panel"><header><slot name="h" :outer="heading" :k="heading">FB-H-{{ outer }}</slot></header><main><slot>FB-D-{{ outer }}</slot></main><footer>{{ outer }}|<slot name="f">FB-F-{{ outer }}</slot></footer></div>`,
-		"rows.vuego":  `<ul><li v-for="it in rows"><slot :id="it.id" :label="it.label">fb</slot></li></ul>`,
-		"flags.vuego": `<ul><li v-for="row in rows"><slot :row="row">fb</slot></li></ul>`,
-		"twice.vuego": `<section><slot></slot><i>+</i><slot></slot></section>`,
-		"leaf.vuego":  `<em>{{ p + 1 }}</em>`,
-		"wrap.vuego":  `<section class="wrap"><template include="card.vuego"><template v-slot:h>INNER-H</template></template><slot>FB-WRAP</slot></section>`,
+		"card.vuego":    `<div class="card"><header><slot name="h">FB-H</slot></header><main><slot>FB-D</slot></main><footer><slot name="f" :x="n" :y="m">FB-F</slot></footer></div>`,
+		"list.vuego":    `<ul><li v-for="it in items"><slot :item="it" :pos="it">FB-{{ it }}</slot></li></ul>`,
+		"panel.vuego":   `<div class="panel"><header><slot name="h" :outer="heading" :k="heading">FB-H-{{ outer }}</slot></header><main><slot>FB-D-{{ outer }}</slot></main><footer>{{ outer }}|<slot name="f">FB-F-{{ outer }}</slot></footer></div>`,
+		"rows.vuego":    `<ul><li v-for="it in rows"><slot :id="it.id" :label="it.label">fb</slot></li></ul>`,
+		"flags.vuego":   `<ul><li v-for="row in rows"><slot :row="row">fb</slot></li></ul>`,
+		"twice.vuego":   `<section><slot></slot><i>+</i><slot></slot></section>`,
+		"leaf.vuego":    `<em>{{ p + 1 }}</em>`,
+		"rowslot.vuego": `<ul><slot v-for="(i, it) in items" name="row" :item="it" :index="i"><li>FB-{{ i }}-{{ it }}</li></slot></ul>`,
+		"wrap.vuego":    `<section class="wrap"><template include="card.vuego"><template v-slot:h>INNER-H</template></template><slot>FB-WRAP</slot></section>`,
 	})
 }
 
@@ -106,7 +107,7 @@ func VerifC06_Slots() {
 // VerifC06_Loop: a slot inside a loop is filled once per iteration with that
 // iteration's props; a component nested in a component keeps its own slots.
 func VerifC06_Loop() {
-	mode := zzChoice("mode", 10)
+	mode := zzChoice("mode", 12)
 	var body, want string
 	var opts []LoadOption
 	fsys := zzC06FS()
@@ -219,6 +220,12 @@ func VerifC06_Loop() {
 	case 7: // a slot used twice gets the same content twice (bound props keep their bindings and types)
 		body = `<template include="twice.vuego"><template include="leaf.vuego" :p="nv"></template><b :title="outer">{{ nv + 1 }}</b></template>`
 		want = `<section><em>10</em><b title="OUT">10</b><i>+</i><em>10</em><b title="OUT">10</b></section>`
+	case 10: // the loop is written on the <slot> element itself
+		body = `<template include="rowslot.vuego"><template #row="p"><li>{{ p.index }}={{ p.item }}-{{ outer }}</li></template></template>`
+		want = `<ul><li>0=a-OUT</li><li>1=b-OUT</li></ul>`
+	case 11:
+		body = `<template include="rowslot.vuego"></template>`
+		want = `<ul><li>FB-0-a</li><li>FB-1-b</li></ul>`
 	case 8, 9: // supplied content that itself uses a registered shorthand component tag
 		fsys.files["components/my-badge.vuego"] = `<span class="badge"><slot>new</slot></span>`
 		opts = []LoadOption{WithComponents()}
